@@ -58,9 +58,12 @@ WalkSeq(S, order) == IF Walk = "sorted" THEN SortedNames(S) ELSE SelectSeq(order
 (* cpu:  [form, milli]      text "<milli>m" (form "m"), or the decimal     *)
 (*       number milli/1000 (forms "dec": shortest, "dec3": three digits);  *)
 (*       the declared amount is `milli` thousandths of a CPU.              *)
-(* bytes: [n, half, suffix] text "<n>[.5]<suffix>"; the declared amount is *)
-(*       (n [+ 1/2]) * Mult(suffix) bytes.  TLC integers are 32 bit, so    *)
-(*       byte amounts are pairs [mi, b] = mi * 2^20 + b, 0 <= b < 2^20.    *)
+(* bytes: [n, tenths, suffix] text "<n>[.<tenths>]<suffix>"; the declared   *)
+(*       amount is (n + tenths/10) * Mult(suffix) bytes -- a whole number  *)
+(*       of bytes for every decimal suffix, and for tenths = 5 with a      *)
+(*       binary suffix (the only fractions the universes use there).       *)
+(*       TLC integers are 32 bit, so byte amounts are pairs                *)
+(*       [mi, b] = mi * 2^20 + b, 0 <= b < 2^20.                           *)
 (***************************************************************************)
 Mi == 1048576
 BigNorm(mi, b) == [mi |-> mi + (b \div Mi), b |-> b % Mi]
@@ -74,11 +77,19 @@ Mult(sfx) ==
     [] sfx = "Gi" -> [mi |-> 1024,    b |-> 0]
     [] sfx = "T"  -> [mi |-> 953674,  b |-> 331776]     \* 10^12
     [] sfx = "Ti" -> [mi |-> 1048576, b |-> 0]
-BigMul(x, n) == BigNorm(x.mi * n, x.b * n)                 \* n < 2048 (ASSUMEd by the MC modules' universes)
+Tenth(sfx) ==                                            \* Mult(sfx) / 10 for the decimal suffixes
+  CASE sfx = "k"  -> [mi |-> 0,     b |-> 100]
+    [] sfx = "M"  -> [mi |-> 0,     b |-> 100000]
+    [] sfx = "G"  -> [mi |-> 95,    b |-> 385280]        \* 10^8
+    [] sfx = "T"  -> [mi |-> 95367, b |-> 452608]        \* 10^11
+BigMul(x, n) == BigNorm(x.mi * n, x.b * n)                 \* products stay below 2^31 for the universes used
 BigHalf(x) == [mi |-> x.mi \div 2, b |-> (x.mi % 2) * (Mi \div 2) + (x.b \div 2)]   \* x even
 BigAdd(x, y) == BigNorm(x.mi + y.mi, x.b + y.b)
-Bytes(q) == IF q.half THEN BigAdd(BigMul(Mult(q.suffix), q.n), BigHalf(Mult(q.suffix)))
-                      ELSE BigMul(Mult(q.suffix), q.n)
+Bytes(q) ==
+  LET whole == BigMul(Mult(q.suffix), q.n) IN
+  IF q.tenths = 0 THEN whole
+  ELSE IF q.suffix \in {"k", "M", "G", "T"} THEN BigAdd(whole, BigMul(Tenth(q.suffix), q.tenths))
+  ELSE BigAdd(whole, BigHalf(Mult(q.suffix)))             \* binary suffix: tenths = 5
 CpuMilli(q) == q.milli
 
 (***************************************************************************)
@@ -340,23 +351,27 @@ DeclaredEndpoints(svc) ==
    n      |-> Cardinality({i \in 1..Len(ex) : ex[i].global})]
 ResKey(r) == [cpu |-> r.cpu, cpuAttrs |-> r.cpuAttrs, mem |-> r.mem, storage |-> r.storage, storageAttrs |-> r.storageAttrs]
 
+\* clause names are "<declared field>@<output>"
 ServiceFailures(d, o, x) ==
   LET mg == SelectSeq(o.manifest, LAMBDA g : g.name = x.placement) IN
-  IF Len(mg) # 1 THEN {"manifest-group"} ELSE
+  IF Len(mg) # 1 THEN {"group@manifest"} ELSE
   LET ms == SelectSeq(mg[1].services, LAMBDA s : s.name = x.service) IN
-  IF Len(ms) # 1 THEN {"manifest-service"} ELSE
+  IF Len(ms) # 1 THEN {"service@manifest"} ELSE
   LET m == ms[1] svc == Svc(d, x.service) u == Units(Prof(d, x.profile)) IN
-     (IF m.image = svc.image THEN {} ELSE {"image"})
-  \cup (IF m.command = svc.command THEN {} ELSE {"command"})
-  \cup (IF m.args = svc.args THEN {} ELSE {"args"})
-  \cup (IF m.env = svc.env THEN {} ELSE {"env"})
-  \cup (IF m.count = x.count THEN {} ELSE {"count"})
-  \cup (IF ResKey(m) = ResKey(u) THEN {} ELSE {"resources"})
-  \cup (IF SameBag(m.expose, DeclaredExpose(svc)) THEN {} ELSE {"expose"})
+       (IF m.image = svc.image THEN {} ELSE {"image@manifest"})
+  \cup (IF m.command = svc.command THEN {} ELSE {"command@manifest"})
+  \cup (IF m.args = svc.args THEN {} ELSE {"args@manifest"})
+  \cup (IF m.env = svc.env THEN {} ELSE {"env@manifest"})
+  \cup (IF m.count = x.count THEN {} ELSE {"count@manifest"})
+  \cup (IF m.cpu = u.cpu THEN {} ELSE {"cpu@manifest"})
+  \cup (IF m.mem = u.mem THEN {} ELSE {"memory@manifest"})
+  \cup (IF m.storage = u.storage THEN {} ELSE {"storage@manifest"})
+  \cup (IF m.cpuAttrs = u.cpuAttrs /\ m.storageAttrs = u.storageAttrs THEN {} ELSE {"resource-attributes@manifest"})
+  \cup (IF SameBag(m.expose, DeclaredExpose(svc)) THEN {} ELSE {"expose@manifest"})
 
 GroupFailures(d, o, p) ==
   LET gg == SelectSeq(o.groups, LAMBDA g : g.name = p) IN
-  IF Len(gg) # 1 THEN {"deployment-group"} ELSE
+  IF Len(gg) # 1 THEN {"group@groups"} ELSE
   LET rs == gg[1].resources
       xs == SelectSeq(d.deployment, LAMBDA x : x.placement = p)
       want == [i \in 1..Len(xs) |->
@@ -366,20 +381,26 @@ GroupFailures(d, o, p) ==
                  ep |-> DeclaredEndpoints(Svc(d, x.service))]]
       got == [i \in 1..Len(rs) |-> [res |-> ResKey(rs[i]), count |-> rs[i].count, price |-> rs[i].price,
                                     ep |-> EpCounts(rs[i].endpoints)]]
-  IN   (IF SameBag(MapSeq(got, LAMBDA r : r.res), MapSeq(want, LAMBDA r : r.res)) THEN {} ELSE {"group-resources"})
-  \cup (IF SameBag(MapSeq(got, LAMBDA r : r.count), MapSeq(want, LAMBDA r : r.count)) THEN {} ELSE {"group-count"})
-  \cup (IF SameBag(MapSeq(got, LAMBDA r : r.price), MapSeq(want, LAMBDA r : r.price)) THEN {} ELSE {"group-price"})
-  \cup (IF SameBag(MapSeq(got, LAMBDA r : r.ep), MapSeq(want, LAMBDA r : r.ep)) THEN {} ELSE {"group-exposure"})
-  \cup (IF SameBag(got, want) THEN {} ELSE {"group-unit"})
+      Bad(f(_)) == ~SameBag(MapSeq(got, f), MapSeq(want, f))
+      fields ==
+             (IF Bad(LAMBDA r : r.res.cpu) THEN {"cpu@groups"} ELSE {})
+        \cup (IF Bad(LAMBDA r : r.res.mem) THEN {"memory@groups"} ELSE {})
+        \cup (IF Bad(LAMBDA r : r.res.storage) THEN {"storage@groups"} ELSE {})
+        \cup (IF Bad(LAMBDA r : <<r.res.cpuAttrs, r.res.storageAttrs>>) THEN {"resource-attributes@groups"} ELSE {})
+        \cup (IF Bad(LAMBDA r : r.count) THEN {"count@groups"} ELSE {})
+        \cup (IF Bad(LAMBDA r : r.price) THEN {"price@groups"} ELSE {})
+        \cup (IF Bad(LAMBDA r : r.ep) THEN {"expose@groups"} ELSE {})
+  IN IF fields # {} THEN fields
+     ELSE IF SameBag(got, want) THEN {} ELSE {"unit-binding@groups"}   \* right values, attached to the wrong unit
 
 FaithfulFailures(d, o) ==
        UNION {ServiceFailures(d, o, x) : x \in Deps(d)}
   \cup UNION {GroupFailures(d, o, p) : p \in UsedPlaces(d)}
-  \cup (IF Len(o.manifest) = Cardinality(UsedPlaces(d)) THEN {} ELSE {"manifest-extra-group"})
-  \cup (IF Len(o.groups) = Cardinality(UsedPlaces(d)) THEN {} ELSE {"deployment-extra-group"})
+  \cup (IF Len(o.manifest) = Cardinality(UsedPlaces(d)) THEN {} ELSE {"extra-group@manifest"})
+  \cup (IF Len(o.groups) = Cardinality(UsedPlaces(d)) THEN {} ELSE {"extra-group@groups"})
   \cup (IF \A i \in 1..Len(o.manifest) :
              Len(o.manifest[i].services) = Cardinality({x \in Deps(d) : x.placement = o.manifest[i].name})
-        THEN {} ELSE {"manifest-extra-service"})
+        THEN {} ELSE {"extra-service@manifest"})
 
 \* placement requirements are not among the fields the property lists: conformance only (drift)
 RequirementFailures(d, o) ==
